@@ -40,6 +40,9 @@ checks={
  "C13":dict(text=LVL+"for each type documented as safe (Queue, Deque, their Distributors and iterators, WaitGroup, Collector incl. the use of the returned error/iterator, adt.Map/Atomic/Synchronized/Once/Pool, synchronized dt.Set, Lock/Once/Limit wrappers) every unordered pair (thorough: triples) of public methods runs concurrently on one shared instance under the symbolic scheduler, and a happens-before (vector-clock, FastTrack-style) monitor over every interpreted memory access reports any conflicting pair of accesses not ordered by the synchronisation performed - whether or not the two accesses were adjacent in the explored schedule",
             note="weakest fit to the family (stated in DESIGN C13): the solver decides path feasibility only, the verdict per path is the monitor's; preemption bound 2; pubsub.Broker pairs are not included (see C08/C09 not-applicable reasons); trusted: the release/acquire edges of the sync/atomic/channel/context/sync.Map/sync.Pool models",
             ref="§5 C13", tech="SSA symbolic execution with symbolic scheduler + vector-clock happens-before monitor on every path"),
+ "C02":dict(text=LVL+"operator pipelines over slices of symbolic ints built from selectors - 9 source constructors/conversions, stages Filter(x<t), Transform(x+c) with a skip/error/EOF/abort injected at a symbolic position, Join, Chain, Uniq (symbolic map keys resolved by solver-decided equalities), DropZeroValues, Buffer, Split(1), Channel/BufferedChannel, list conversion; sinks ReadOne loop (plus reads after the end), Slice, Count, Reduce, Indexed - compared elementwise with the same pure functions applied to the symbolic input; goroutine-backed stages run under the symbolic scheduler",
+            note="sources <=3 elements; trees: <=3 elements, 2 (thorough 3) stages; preemption bound 1 for sources/single stages, non-preemptive for trees; JSON clauses outside (reflection/strconv); Join/Chain after a faulted stage excluded (statement silent); trusted: channel/Once/context models; interpreter mimics gc's evaluation order for `return v, f()` (Iterator.Slice relies on it)",
+            ref="§5 C02", tech="SSA symbolic execution + SMT (QF_BV) over symbolic element values, parameters and fault positions"),
 }
 NA={}
 m={"version":1,
